@@ -229,6 +229,8 @@ class Builder:
         tagged = "tag" in f.metadata
         if is_array:
             alts = [1, 0, 2][: self.max_array + 1] if self.max_array >= 1 else [0]
+            if not dataclasses.is_dataclass(inner) and self.max_array >= 2 and kt not in ("string", "bytes", "records"):
+                alts = alts + [127]  # compact length prefix boundary (one byte -> two bytes); cheap for scalar items
             n_alts = len(alts) + (1 if nullable else 0)
             a = self.alt(path + "#arr", n_alts)
             if a >= len(alts):
